@@ -360,7 +360,10 @@ def check_integral_rms(ctx, rule="R3-band-rms-is-trapezoid-of-asd-squared"):
             return m
         if name in ("numpy.min", "numpy.max", "numpy.amin", "numpy.amax"):
             a = args[0]
-            if isinstance(a, ArrParam): return mk_fn(name.split(".")[-1].replace("a", "", 1) if name.split(".")[-1].startswith("am") else name.split(".")[-1], [X.var(a.name + ".all")], "real")
+            if isinstance(a, ArrParam):
+                which = "min" if name.endswith("min") else "max"
+                KIND[f"{a.name}.{which}"] = "real"
+                return X.var(f"{a.name}.{which}")          # the smallest / largest grid value: two different symbols
             return Opaque("min/max")
         if name.startswith("logging.") or name.startswith("logger."): return None
         return NotImplemented
@@ -406,9 +409,30 @@ def check_integral_rms(ctx, rule="R3-band-rms-is-trapezoid-of-asd-squared"):
             if not (node.hi is False): inclusive = False
         (ctx.holds if inclusive and n >= 2 else ctx.violated)(rule, key + "[band edges]", "grid points on the band edges are included (>=, <=)" if inclusive and n >= 2 else
                                                              "the crop excludes grid points lying exactly on a band edge (strict comparison)", where)
+        # the thresholds: a grid point is inside iff lo <= f <= hi; clamping the edges to the grid's own extent (max(min f, lo), min(max f, hi)) selects the same points
+        iv = M.axes[0][0]; A_f = as_arr(f_in); fi = to_x(subst_val(A_f.body, {A_f.axes[0][0]: X.var(iv)}))
+        lo, hi = X.var("lo"), X.var("hi")
+        ok_lo = [lo, lm.canon_minmax("max", [X.var("freq.min"), lo])]
+        ok_hi = [hi, lm.canon_minmax("min", [X.var("freq.max"), hi])]
+        seen_lo = seen_hi = False; wrong = None
+        for node in conds:
+            d = getattr(node.cond, "lt", None)
+            if d is None: continue
+            if any(d.eq(fi - t) for t in ok_lo): seen_lo = True
+            elif any(d.eq(t - fi) for t in ok_hi): seen_hi = True
+            else: wrong = wrong or d
+        if wrong is not None or not (seen_lo and seen_hi):
+            ctx.violated(rule, key + "[band thresholds]", ("a grid point is tested against " + repr(wrong) + " < 0" if wrong is not None else "one band edge is never tested") +
+                         ": the points kept are not exactly those with lo <= f <= hi (so the RMS is not additive over adjacent bands)", where)
+        else:
+            ctx.holds(rule, key + "[band thresholds]", "kept points are exactly those with lo <= f <= hi (edges possibly clamped to the grid's own extent)", where)
     # result = sqrt(last cumulative value)
     leaves = [l for _, l in pv_leaves(r) if not (to_x(l) is not None and to_x(l).iszero())]
     okr = any(isinstance(l, Opaque) is False and "cumtrapz" in repr(l) for l in leaves) or any(is_opaque(l) and "cumtrapz" in l.why for l in leaves)
+    # degenerate bands (no grid point inside) contribute nothing: every other returned value is exactly 0
+    nonzero = [l for _, l in pv_leaves(r) if to_x(l) is not None and not to_x(l).iszero()]
+    (ctx.violated if nonzero else ctx.holds)(rule, key + "[empty band]", f"a band without grid points returns {nonzero[0]!r}, not 0: the RMS is no longer additive in power over adjacent bands" if nonzero else
+                                             "bands without grid points return 0", where)
     src = ast.unparse(fn)
     sq = "np.sqrt(" in src.replace(" ", "") and "[-1]" in src
     (ctx.holds if sq else ctx.violated)(rule, key + "[root]", "rms = sqrt(integral)" if sq else "the square root of the last cumulative value is not returned", where)
